@@ -42,6 +42,27 @@ def run(chk):
             for b in big:
                 if (a, b) in ((big[0], big[1]), (big[1], big[0]), (big[0], big[0]), (big[4], big[5]), (big[5], big[4]), (big[6], big[7]), (big[7], big[6]), (big[3], big[0])) or chk.rng.random() < 0.1:
                     cases.append(((op, evalgen.lit(a), evalgen.lit(b)), None))
+    # directed: folds whose block yields nothing for an element that is not the last one and restarts from the bound
+    # variable (or a literal) afterwards — the element-by-element semantics visits every element regardless
+    L = evalgen.lit
+    arrs = [[3, 1, 2], [0, 5, 0, 7], [1, 1, 4, 1], [2, 0], [0, 2], [5], []]
+    blocks = lambda x: [("pipe", ("var", x), ("select", ("gt", ("self",), L(1)))),
+                        ("pipe", ("var", x), ("select", ("ne", ("self",), L(0)))),
+                        ("select", ("lt", ("var", x), L(2))),
+                        ("union", ("pipe", ("var", x), ("select", ("gt", ("self",), L(1)))), ("pipe", ("var", x), ("select", ("gt", ("self",), L(4))))),
+                        ("collect", ("pipe", ("var", x), ("select", ("gt", ("self",), L(1))))),
+                        ("pipe", ("select", ("gt", ("var", x), L(1))), ("add", ("self",), ("var", x))),
+                        ("alt", ("pipe", ("var", x), ("select", ("gt", ("self",), L(1)))), ("pipe", ("select", ("ne", ("self",), L(0))), ("self",))),
+                        ("add", ("pipe", ("var", x), ("select", ("gt", ("self",), L(1)))), L(10)),
+                        ("add", ("self",), ("var", x))]
+    for arr in arrs:
+        for doc, src in ((arr, ("index", ("self",), None)), ({"a": arr, "k": 1}, ("index", ("getkey", "a"), None))):
+            for init in (0, 1):
+                for body in blocks("i"):
+                    e = ("reduce", src, "i", L(init), body)
+                    cases.append((e, doc))
+                    cases.append((("collect", e), doc))
+                    cases.append((("add", e, L(100)), doc))
     impl, mism, err = run_cases(chk, cases, "c01_cases")
     stats = collections.Counter()
     opsh = collections.Counter()
